@@ -1,5 +1,6 @@
 """C08  Buffer is a faithful byte queue with a terminator and no stray writes."""
 import itertools
+import re
 import common as C
 
 PROPERTIES = ["C08"]
@@ -79,6 +80,8 @@ def reference(hist, impl_out):
     buffers read through region memory, of which Buffer may only modify bytes inside the
     attached range (the reference tracks the one documented case: the terminator written by
     removeBack)."""
+    if is_client(hist):
+        return reference_client(hist, impl_out)
     q = [[], []]
     out = []
     regs = [[REGBASE[r] + i for i in range(REGLEN[r])] for r in range(2)]
@@ -178,8 +181,90 @@ def reference(hist, impl_out):
     return out
 
 
+def is_client(hist):
+    return any(l.startswith("cw ") or l.startswith("cr ") for l in hist)
+
+
+SEND_RE = re.compile(r"send=(\d+)>(\w+)")
+
+
+def reference_client(hist, impl_out):
+    """oracle of the backlog-client stream (harness/buffer_backlog.cpp = the real ClientImpl::write and write-readiness handler
+    of Server.cpp), written as STREAM CONSERVATION, not as a copy of the code: for every live client, after every op,
+    `_sendBuffer` holds exactly (all bytes written so far) minus (the bytes send() accepted so far, read off the harness'
+    send log); send() is offered the whole backlog (write-readiness) / the whole data (write on an empty backlog) and is not
+    called by a write on a non-empty backlog; `postponed` is the backlog size; onWrite exactly when an accepting send drained
+    the backlog; a client is closed exactly when send failed or accepted nothing."""
+    written, acc, dead, out = [[], []], [0, 0], [False, False], []
+    for k, line in enumerate(hist):
+        t = line.split()
+        io = impl_out[k] if k < len(impl_out) else None
+        if io is None or " | " not in io or t[0] not in ("cw", "cr") or int(t[1]) > 1:
+            out.append(None)
+            continue
+        c = int(t[1])
+        res = io.split(" | ")[0]
+        bad = ""
+        if res == "dead":
+            if not dead[c]: bad = "reported dead but never closed"
+        elif dead[c]:
+            bad = "closed client used again"
+        else:
+            before = len(written[c]) - acc[c]
+            m = SEND_RE.search(res)
+            kk = None
+            if t[0] == "cw":
+                data = unhex(t[2])
+                written[c] += data
+                if before == 0:
+                    if not m or int(m.group(1)) != len(data): bad = "write on an empty backlog must offer all data to send"
+                elif m: bad = "write on a non-empty backlog must not call send"
+            else:
+                if res == "idle":
+                    if before != 0: bad = "backlog not empty but the client is not registered for write-readiness"
+                elif not m or int(m.group(1)) != before or before == 0:
+                    bad = "write-readiness must offer the whole backlog to send"
+            if m and m.group(2).isdigit():
+                kk = int(m.group(2))
+                if kk > int(m.group(1)): bad = "send accepted more than offered"
+                acc[c] += kk
+            closes = bool(m) and (m.group(2) == "err" or kk == 0) and not (t[0] == "cw" and m.group(2) == "wb")
+            if t[0] == "cw" and m and kk == 0 and len(unhex(t[2])) == 0:
+                closes = True      # send(…, 0) returned 0
+            pend = len(written[c]) - acc[c]
+            if t[0] == "cw":
+                want = "ret=0 post=0" if closes else f"ret=1 post={pend}"
+                if not res.startswith(want + " "): bad = bad or f"expected {want}"
+            elif res != "idle":
+                want = "cb=C" if closes else ("cb=W" if kk and pend == 0 else "cb=-")
+                if not res.startswith(want + " "): bad = bad or f"expected {want}"
+            if closes:
+                dead[c] = True
+        parts = ["dead" if dead[i] else f"{len(written[i]) - acc[i]} {hexs(written[i][acc[i]:])}" for i in range(2)]
+        out.append("client " + (("BAD:" + bad.replace(" ", "_")) if bad else "ok") + " | " + " | ".join(parts))
+    return out
+
+
+def ref_eq_client(impl, ref):
+    pi, pr = impl.split(" | "), ref.split(" | ")
+    if len(pi) != 3 or len(pr) != 3 or pr[0] != "client ok":
+        return False
+    for a, b in zip(pi[1:], pr[1:]):
+        if a == "dead" or b == "dead":
+            if a != b: return False
+            continue
+        ta, tb = a.split(" "), b.split(" ")
+        if len(ta) != 7 or ta[0] != tb[0] or ta[1] != tb[1]:
+            return False
+        if ta[2] == "1" and ta[3] != "00":        # owning => terminator
+            return False
+    return True
+
+
 def ref_eq(impl, ref):
     """impl line `size bytes owned term | ... # regions`  against the reference line"""
+    if ref.startswith("client "):
+        return ref_eq_client(impl, ref)
     if impl.startswith("heap") or ref.startswith("heap"):
         return impl == ref
     if impl.startswith("eq") or ref.startswith("eq"):
@@ -456,10 +541,59 @@ def attach_family(maxcap):
     return hs
 
 
+def client_family(quick, rng):
+    """the backlog-client stream: op lines for harness/buffer_backlog.cpp (real Server.cpp code, send scripted).
+    (a) every sequence of <= 4 (quick) / 5 ops of one client over writes of 0/1/3 bytes and write-readiness events with
+        send answers would-block / error / 0 / 1 / 2 / everything,
+    (b) sliding windows: a first write of a bytes of which send takes k, then rounds of (readiness accepting r, write n)
+        aimed at the in-place | compact | reallocate boundaries of the backlog Buffer,
+    (c) random two-client interleavings."""
+    hs = []
+    pat = [1 + (i * 11) % 253 for i in range(3000)]
+    alpha = ["cw 0 - wb", "cw 0 41 wb", "cw 0 41 1", "cw 0 414243 wb", "cw 0 414243 1", "cw 0 414243 2", "cw 0 414243 9", "cw 0 41 err",
+             "cw 0 414243 0", "cr 0 wb", "cr 0 1", "cr 0 2", "cr 0 99", "cr 0 err", "cr 0 0"]
+    for d in range(1, (4 if quick else 5) + 1):
+        hs += [list(p) for p in itertools.product(alpha, repeat=d)]
+    for a in ([2, 3, 5, 8, 16, 100, 1000] if quick else [2, 3, 4, 5, 6, 7, 8, 16, 17, 64, 100, 256, 1000]):
+        for k0 in sorted({0, 1, a // 2, a - 1}):
+            if k0 >= a: continue
+            size0 = a - k0
+
+            def rounds(st, size, pos, depth, acc):
+                if depth == 0:
+                    hs.append(acc + [f"cr 0 {size + 5}", "cw 0 42 wb", "cr 0 1"])
+                    return
+                for r in sorted({1, size // 2, size - 1}):
+                    if r <= 0 or r >= size: continue
+                    st1 = _sim_backlog(st, "removeFront", r)
+                    spare, head = st1[2] - st1[1], st1[0]
+                    for n in sorted({1, spare - 1, spare, spare + 1, spare + head - 1, spare + head, spare + head + 1}):
+                        if n <= 0 or n > 1100: continue
+                        st2 = _sim_backlog(st1, "append", n)
+                        rounds(st2, size - r + n, pos + n, depth - 1, acc + [f"cr 0 {r}", f"cw 0 {hexs(pat[pos:pos + n])} wb"])
+            rounds((0, size0, size0), size0, a, 2, [f"cw 0 {hexs(pat[:a])} {k0 if k0 else 'wb'}"])
+    for _ in range(3000 if quick else 20000):
+        h, pend = [], [0, 0]
+        for _ in range(rng.choice([5, 10, 20])):
+            c = rng.randrange(2)
+            if rng.random() < 0.5:
+                n = rng.choice([0, 1, 2, 3, 5, 8, 13, 40])
+                o = rng.choice(["wb", "1", str(max(1, n // 2)), str(n), str(n + 1), "wb", "err" if rng.random() < 0.1 else "2"])
+                h.append(f"cw {c} {rand_bytes(rng, n)} {o}")
+            else:
+                o = rng.choice(["wb", "1", "2", "3", "7", "1000", "err" if rng.random() < 0.1 else "5", "0" if rng.random() < 0.05 else "4"])
+                h.append(f"cr {c} {o}")
+        hs.append(h)
+    return hs
+
+
 def nontrivial(h, out):
     """distinct = distinct (set of op kinds, final observation); non-trivial = at least 3 ops and a non-empty buffer"""
     if len(h) < 3 or not out:
         return None
+    if is_client(h):
+        obs = [o for o in out if " | " in o]
+        return (frozenset(l.split()[0] + "." + l.split()[-1][:1] for l in h), obs[-1]) if obs and " own" in obs[-1] else None
     obs = [o for o in out if " # " in o]
     if not obs:
         return None
@@ -518,6 +652,23 @@ def branch_stats(hist, impl_out, cnt):
         else:
             b[:] = ["dflt", 0, 0, b[3]]
 
+    if is_client(hist):
+        prev = None
+        for k_, line in enumerate(hist):
+            if k_ >= len(impl_out) or " | " not in impl_out[k_]:
+                return
+            t = line.split()
+            parts = impl_out[k_].split(" | ")
+            res, cur = parts[0], parts[1 + int(t[1])].split(" ") if int(t[1]) < 2 else None
+            m = SEND_RE.search(res)
+            kind = "dead" if res == "dead" else "idle" if res == "idle" else ("nosend" if not m else m.group(2) if not m.group(2).isdigit()
+                   else "all" if m.group(1) == m.group(2) else "zero" if m.group(2) == "0" else "partial")
+            hit(f"client.{t[0]}.{kind}")
+            if cur and len(cur) == 7 and prev and len(prev) == 7 and t[0] == "cw" and cur[2] == "1" and prev[2] == "1":
+                hr0, hr1 = int(prev[5][3:]), int(cur[5][3:])
+                hit("client.append." + ("realloc" if cur[4] != prev[4] else "compact" if hr0 > 0 and hr1 == 0 else "inplace"))
+            prev = cur if int(t[1]) == 0 else prev      # head-room history of client 0
+        return
     for k_, line in enumerate(hist):
         t = line.split()
         op = t[0]
@@ -614,6 +765,10 @@ def with_caps(hist, impl_out):
     out = []
     for k, line in enumerate(hist):
         t = line.split()
+        if t and t[0] in ("cw", "cr") and k < len(impl_out):
+            m = re.findall(r"cap=(\d+)", impl_out[k])
+            if len(m) == 2 and int(t[1]) < 2:
+                line = f"{line} cap={m[int(t[1])]}"
         if t and t[0] in CAP_OPS and k < len(impl_out) and " @ " in impl_out[k]:
             caps = impl_out[k].split(" @ ")[1].split(" ")
             v = int(t[1])
@@ -771,6 +926,18 @@ def histories_for(ctx):
     return hs + ex + fam + bl + af + rnd
 
 
+def backlog_sources():
+    r = C.REPO / "src"
+    # Server.cpp is #included by buffer_backlog.cpp itself (white-box access to Server::Private::ClientImpl)
+    return ["buffer_backlog.cpp"] + [r / f for f in (
+        "Socket/Socket.cpp", "Time.cpp", "Mutex.cpp", "Error.cpp", "Memory.cpp", "Future.cpp",
+        "Thread.cpp", "Signal.cpp", "Semaphore.cpp", "String.cpp", "System.cpp", "Debug.cpp", "Process.cpp")]
+
+
+def build_backlog(ctx):
+    return C.build_harness(ctx, "buffer_backlog", backlog_sources(), extra_flags=[f"-I{C.REPO / 'src'}"], libs=["-lpthread", "-lrt"])
+
+
 def check(ctx):
     ctx.assumptions += [
         "memory model of the Lean model: each Buffer holds its allocation / its attached range as a separate checked block; every access is validated against its extent and, for owned blocks, against the allocation ledger (block ids + live set; new/delete[] in C++ order)",
@@ -795,6 +962,29 @@ def check(ctx):
         diffs = differential_mp(ctx, harness, C.driver_path(DRIVER), hs)
         ctx.log(f"{len(hs)} histories, {ctx.cov['evaluations']} op lines, {len(diffs)} disagreement(s)")
         report_diffs(ctx, diffs, harness, C.driver_path(DRIVER), "buffer-ops")
+        # the real backlog client of Server.cpp (ClientImpl::write + write-readiness handler) against the client model
+        h2 = build_backlog(ctx)
+        if h2 is not None:
+            try:
+                ch = tagged("client", client_family(ctx.tier == "quick", ctx.rng))
+                hits0 = ctx.cov.get("branch_hits", {})
+                d2 = differential_mp(ctx, h2, C.driver_path(DRIVER), ch)
+                hits0.update(ctx.cov.get("branch_hits", {}))
+                ctx.cov["branch_hits"] = dict(sorted(hits0.items()))
+                ctx.cov["rule"] += (f" + backlog-client stream on the real Server.cpp code (ClientImpl::write, write-readiness branch of run(); send scripted): "
+                                    f"{len(ch)} histories (all <= {4 if ctx.tier == 'quick' else 5}-op sequences of one client over 15 ops, boundary-aimed sliding windows, random two-client interleavings)")
+                ctx.cov["exhaustive_scope"] += f"; backlog-client stream: {len(ch)} histories"
+                ctx.cov["samples"] += [" ; ".join(h) for h in ch[-2:]]
+                for h in ch:
+                    for l in h:
+                        ops[l.split()[0]] = ops.get(l.split()[0], 0) + 1
+                ctx.log(f"backlog-client stream: {len(ch)} histories, {len(d2)} disagreement(s)")
+                report_diffs(ctx, d2, h2, C.driver_path(DRIVER), "backlog-client")
+            finally:
+                try:
+                    h2.unlink()
+                except OSError:
+                    pass
     finally:
         try:
             harness.unlink()
@@ -804,7 +994,7 @@ def check(ctx):
 
 def replay(ctx, path):
     h = C.parse_replay(path)
-    harness = C.build_harness(ctx, "buffer", ["buffer.cpp", C.REPO / "src/Memory.cpp"])
+    harness = build_backlog(ctx) if is_client(h) else C.build_harness(ctx, "buffer", ["buffer.cpp", C.REPO / "src/Memory.cpp"])
     C.lake_build([DRIVER])
     diffs, nlines, done, _, _ = run_batch(harness, C.driver_path(DRIVER), [h], 120)
     ctx.cov["evaluations"] += nlines
